@@ -283,22 +283,35 @@ func CaseCPUBudget() int64 {
 
 // StartCPUGuard starts the watcher; onSpin is called (once, from the watcher's goroutine) after the violation has
 // been recorded: it has to save what the process has found and end the process, since the case never will.
+// Two conditions are watched: a case that burns CPU without end, and a case in which nothing runs any more.
+// externalWaits counts the calls currently waiting for a child process (whose CPU time is not this process's).
+var externalWaits atomic.Int32
+
+// waitingForChild runs f, which waits for a child process, and tells the guard so.
+func waitingForChild(f func()) {
+	externalWaits.Add(1)
+	defer externalWaits.Add(-1)
+	f()
+}
+
+// idleLimit: a case that is unfinished while this process has consumed next to no CPU for this long (and is not
+// waiting for a child process) has every goroutine blocked - renders that wait for each other.  Wall-clock time is
+// used here only to measure how long NOTHING has run: a process that is merely slow because the machine is busy
+// still accumulates CPU time.
+const idleLimit = 180 * time.Second
+
 func StartCPUGuard(c *Ctx, onSpin func()) {
-	if c.Prop.Race {
-		return // many goroutines burn CPU side by side there; those checks have their own detection of calls that never return
-	}
 	budget := CaseCPUBudget()
+	if c.Prop.Race {
+		budget *= 3 // many goroutines (and the detector itself) burn CPU side by side there
+	}
 	go func() {
-		for {
-			time.Sleep(200 * time.Millisecond)
-			seq := guardSeq.Load()
-			if seq%2 == 0 {
-				continue
-			}
-			used := cpuMillis() - guardStartCPU.Load()
-			if used <= budget || guardSeq.Load() != seq {
-				continue
-			}
+		var (
+			watched   int64 = -1
+			idleSince time.Time
+			idleCPU   int64
+		)
+		report := func(what string, used int64) {
 			pi, i := int(guardPhase.Load()), int(guardIndex.Load())
 			buf := make([]byte, 1<<20)
 			n := runtime.Stack(buf, true)
@@ -306,9 +319,32 @@ func StartCPUGuard(c *Ctx, onSpin func()) {
 			if pi >= 0 && pi < len(c.Prop.Phases) {
 				name = c.Prop.Phases[pi].Name
 			}
-			c.Rec.ViolateStack("case-does-not-return", fmt.Sprintf("phase %q case %d has consumed %d CPU-seconds of this process without finishing (cases of this check take milliseconds to seconds of CPU): a call into the library does not return; the goroutine dump shows where it is (no complete output and no error is a violation of %s; also C09)", name, i, used/1000, c.Prop.ID), c.Case, string(buf[:n]))
+			c.Rec.ViolateStack("case-does-not-return", fmt.Sprintf("phase %q case %d %s: a call into the library does not return; the goroutine dump shows where it is (no complete output and no error is a violation of %s; also C09)", name, i, fmt.Sprintf(what, used/1000), c.Prop.ID), c.Case, string(buf[:n]))
 			onSpin()
-			return
+		}
+		for {
+			time.Sleep(200 * time.Millisecond)
+			seq := guardSeq.Load()
+			if seq%2 == 0 {
+				watched = -1
+				continue
+			}
+			now, cpu := time.Now(), cpuMillis()
+			if seq != watched || externalWaits.Load() > 0 || cpu-idleCPU > 500 {
+				watched, idleSince, idleCPU = seq, now, cpu
+			}
+			used := cpu - guardStartCPU.Load()
+			if guardSeq.Load() != seq {
+				continue
+			}
+			if used > budget {
+				report("has consumed %d CPU-seconds of this process without finishing (cases of this check take milliseconds to seconds of CPU)", used)
+				return
+			}
+			if now.Sub(idleSince) > idleLimit {
+				report("is unfinished while the process, which is not waiting for any child process, has consumed less than half a CPU-second in the last "+idleLimit.String()+" (%d CPU-seconds since the case began): every goroutine is blocked", used)
+				return
+			}
 		}
 	}()
 }
